@@ -72,6 +72,23 @@ add('C04', 'exploration', 'runtime monitoring: instrumented RefCounter trigger i
     'failed elements must never signal.',
     'Derivation tracked by metadata identity plus call-stack inheritance for metadata-less flatten pieces.', 'DESIGN.md#C04')
 
+add('C08', 'exploration', 'runtime monitoring on a virtual-time loop: conservation/order/timer/deadline oracle over the node history',
+    'Timed nodes run under a virtual clock with arrivals placed on the same grid as the ticks (coincidences), bursts and '
+    'slow consumers; every arrival must be in exactly one batch, batches in arrival order, partitions <= n and never '
+    'empty, full partitions at the instant of their last member, partial ones exactly one timeout after their first, and '
+    'every element emitted within interval + independently measured blocked time.',
+    'Coincident timers may fire in either order (both accepted); blocked time measured from consumer END events.',
+    'DESIGN.md#C08')
+add('C13', 'exploration', 'runtime monitoring on a virtual-time loop: spacing/order/no-delay oracle over delivery timestamps',
+    'rate_limit/delay chains with 1-4 producers (awaiting or not), bursts and idle gaps: consecutive emissions >= interval '
+    'apart, arrival order and count preserved after the bounded settle, idle arrivals emitted at their arrival instant.',
+    'Virtual clock shared by streamz.core.time, tornado and asyncio.', 'DESIGN.md#C13')
+add('C14', 'exploration', 'runtime monitoring on a virtual-time loop: subsequence + newest-delivered oracle',
+    'latest in front of slow consumers with arrivals while idle / busy / several per busy period / same loop turn; what is '
+    'delivered must be an in-order duplicate-free subsequence (elements identified by metadata identity) and, at loop '
+    'quiescence after input stops, the newest arrival has been delivered.',
+    '"Eventually" is decided as bounded progress: at quiescence of the virtual-time loop.', 'DESIGN.md#C14')
+
 
 def main():
     props = [json.loads(l) for l in open(os.path.join(HERE, 'properties.jsonl'))]
